@@ -174,13 +174,21 @@ def finish(prop, tier, seed, level, results, dead, t0, m):
     for k in known['findings']:
         if k.get('status', 'open') != 'open' or prop not in k['properties']:
             continue
-        st = run_witness(k, prop)
-        if st['reproduced']:
-            kf_lines.append(f"KNOWN-FINDING: property={prop} {k['id']} {k['mechanism']}")
+        hits = known_hits.get(k['id'], 0)
+        wfile = (k.get('witness') or {}).get(prop)
+        if wfile:
+            st = run_witness(k, prop, wfile)
+            state = 'witness reproduced' if st['reproduced'] else f"witness NOT reproduced ({st['why']})"
+            for f in st['other']:
+                kk = attributed(f, prop, known)
+                if kk is None:
+                    violations.append(f)
+                else:
+                    known_hits[kk['id']] = known_hits.get(kk['id'], 0) + 1
         else:
-            kf_lines.append(f"NOTE: known finding {k['id']} did not reproduce on its witness ({st['why']})")
-        for f in st['other']:
-            violations.append(f)
+            state = 'no witness for this property'
+        kf_lines.append(f"KNOWN-FINDING: property={prop} {k['id']} family={k['family']} "
+                        f"[{state}; attributed hits in this run: {hits}] {k['mechanism']}")
     for line in kf_lines:
         print(line)
     floors = getattr(m, 'FLOORS', {}).get(prop, {})
@@ -277,9 +285,9 @@ COMMON_ASSUMPTIONS = [
 ]
 
 
-def run_witness(k, prop):
+def run_witness(k, prop, wfile):
     """Re-execute the witness of a known finding in a fresh process."""
-    path = os.path.join(VERIF, k['witness'])
+    path = os.path.join(VERIF, wfile)
     hs = json.load(open(path)).get('hashseed', 0)
     out = subprocess.run([PY, '-m', 'rv.runner', '--witness', path, prop], env=env_for(hs or 0), cwd=VERIF,
                          capture_output=True, timeout=600)
